@@ -78,6 +78,18 @@ where
     }
 }
 
+#[cfg(feature = "verif")]
+impl<St> BufferedOrdered<St>
+where
+    St: Stream,
+    St::Item: Future,
+{
+    /// Verification hook: seed the position counters of the inner queue (while empty).
+    pub fn verif_seed_positions(self: Pin<&mut Self>, start: usize) {
+        self.project().in_progress_queue.verif_seed_positions(start);
+    }
+}
+
 #[cfg(test)]
 mod tests {
     use crate::BufferedStreamExt;
